@@ -1,9 +1,42 @@
-/- driver handler of the `lint` stream (line protocol, see Main.lean) -/
+/- driver handler of the `lint` stream (line protocol, see Main.lean)
+
+  lint wf  <definition>                               -> ok | problems <json array of codes>
+  lint ill <definition> <input> <ctx> <oracle> <fuel> -> ok {"wf":b,"ill":b,"status":s,"error":e} | unsupported
+-/
 import AslModel.Drv.Util
+import AslModel.Drv.Interp
+import AslModel.Machine
 namespace Asl.Drv.Lint
-open Asl
+open Asl Asl.Drv Asl.Machine
+
+def problemJson : Problem → Json
+  | .notAnObject => .str (S "notAnObject")
+  | .noStates => .str (S "noStates")
+  | .noStartAt => .str (S "noStartAt")
+  | .startAtUndefined => .str (S "startAtUndefined")
+  | .duplicateNames => .str (S "duplicateNames")
+  | .illFormedState n => .arr [.str (S "illFormedState"), .str n]
+  | .illFormed => .str (S "illFormed")
 
 def handle : List String → String
+  | ["wf", d] =>
+    match rd d with
+    | some m =>
+      match lint m with
+      | [] => "ok"
+      | ps => "problems\t" ++ jsOrd (.arr (ps.map problemJson))
+    | none => "unsupported"
+  | ["ill", asl, input, ctx, oracle, fuel] =>
+    match rd asl, rd input, rd ctx, rd oracle, fuel.toNat? with
+    | some a, some i, some c, some o, some f =>
+      if !Lite.machineSupported 200 a then "unsupported"
+      else
+        let env : Env := { tmpl := Lite.tmpl, choose := Lite.choose, task := Asl.Drv.Interp.oracleFn o }
+        let out := run env f a i c
+        "ok\t" ++ js (.obj [(S "wf", .bool (WF a)), (S "ill", .bool (illRun env f a i c)),
+                            (S "status", .str out.status),
+                            (S "error", match out.error with | some e => .str e | none => .null)])
+    | _, _, _, _, _ => "unsupported"
   | _ => "bad-op"
 
 end Asl.Drv.Lint
